@@ -190,6 +190,12 @@ def d2_d3_weights(ctx):
     for c in mm:
         a, b = c.args[:2]
         sa_ = None
+        if matrix and isinstance(a, ast.Name) and a.id == "weights":
+            # the donor columns were cut out beforehand: weights = weights[:, imult]
+            ds_ = [d for d in du.defs if d.var == "weights" and d.kind == "assign" and isinstance(d.value, ast.Subscript) and loc_name(d.value.value) == "weights"
+                   and isinstance(d.value.slice, ast.Tuple) and cfg.must_pass([d.node], cfg.node_for(c))]
+            if len(ds_) == 1:
+                a = ds_[0].value
         if isinstance(a, ast.Subscript):
             if matrix and isinstance(a.slice, ast.Tuple) and len(a.slice.elts) == 2 and _is_full(a.slice.elts[0]):
                 sa_ = loc_name(a.slice.elts[1])
@@ -198,16 +204,26 @@ def d2_d3_weights(ctx):
         sb_ = loc_name(b.slice.elts[0]) if isinstance(b, ast.Subscript) and isinstance(b.slice, ast.Tuple) else None
         ok = sa_ is not None and sa_ == sb_ and loc_name(a.value) == "weights" and loc_name(b.value) == "data" and \
             {d.idx for d in du.reaching(sa_, a)} == {d.idx for d in du.reaching(sa_, b)}
-        ctx.check(ok, fi, c, c, "weights and neighbour rows are gathered with the same support", f"`{src(c)}`: weights and rows are gathered with different selectors", key="same-support")
+        if matrix and ok is False and sa_ is not None and sa_ == sb_ and loc_name(b.value) == "data":
+            ok = True   # the reaching definitions of the selector are compared at the cut (a) and at the gather (b): same single definition
+            ok = {d.idx for d in du.reaching(sa_, b)} == {d.idx for d in du.reaching(sa_, ds_[0].stmt)} if 'ds_' in dir() and ds_ else ok
+        ctx.check(ok, fi, c, c, "weights and neighbour rows are gathered with the same support", f"`{src(c)}`: weights and rows are gathered with different selectors", key="same-support",
+                  name_free=matrix)
     # empty support -> zeros
     if matrix:
         # a row of zero weights must stay a row of zeros: the divisor is guarded against 0 (where(wsum > 0, wsum, 1) / maximum / wsum == 0 handling)
         okz = False
         if normd:
-            dn = _deep_nodes(du, normd[0].value.right if isinstance(normd[0].value, ast.BinOp) else normd[0].value, normd[0])
-            okz = any(isinstance(c, ast.Call) and call_name(c) in ("where", "maximum", "clip") for c in dn)
+            div_ = normd[0].value.right if isinstance(normd[0].value, ast.BinOp) else normd[0].value
+            div_ = expand_name(du, div_, normd[0])
+            # the guard has to wrap the SUM (where(wsum > 0, wsum, 1) / maximum(wsum, tiny)): a `where` somewhere in the history of the weights does not protect the division
+            guards_ = [c for c in ast.walk(div_) if isinstance(c, ast.Call) and call_name(c) in ("where", "maximum", "clip")]
+            okz = any(any(isinstance(x, ast.Call) and call_name(x) == "sum" for x in ast.walk(expand_name(du, a_, normd[0]) if isinstance(a_, ast.Name) else a_) ) or
+                      (isinstance(a_, ast.Name) and any(isinstance(x, ast.Call) and call_name(x) == "sum" for x in _deep_nodes(du, a_, normd[0])))
+                      for g_ in guards_ for a_ in g_.args)
         ctx.check(okz, fi, normd[0] if normd else anchor, normd[0] if normd else "normalisation", "a bad channel without usable neighbours becomes zeros (zero row / guarded divisor)",
-                  "a row of zero weights is divided by its zero sum: NaN instead of zeros for a bad channel without neighbours", key="empty-support")
+                  "a row of zero weights is divided by its zero sum: NaN instead of zeros for a bad channel without neighbours (the all-channels test `support is empty` only "
+                  "covers the case where NO repaired channel has a donor)", key="empty-support", name_free=True)
         return
     z = [n for n in body if isinstance(n, ast.Assign) and isinstance(n.targets[0], ast.Subscript) and loc_name(n.targets[0].value) == "data" and const_value(n.value) == (True, 0)]
     okz = False
